@@ -2,6 +2,7 @@
 mod c02;
 mod c04;
 mod voicegen;
+mod c18;
 mod c20;
 mod vset;
 mod dur;
@@ -26,6 +27,8 @@ fn main() {
         "dur-replay" => dur::replay(&a[2], &a[3]),
         "vset-record" => vset::record(n(2) as u64, n(3), &a[4], &a[5..]),
         "vset-replay" => vset::replay(&a[2], &a[3], &a[4]),
+        "c18-run" => c18::run(&a[2], &a[3]),
+        "c18-worker" => c18::worker(&a[2], n(3)),
         "c20-replay" => c20::replay(&a[2], &a[3]),
         other => die(&format!("unknown command {}", other)),
     }
